@@ -35,7 +35,7 @@ RULE = ('RandomChoice: probability vectors of 1..1e5 items (float64/float32; lea
         'a case is non-trivial when distinct by content hash and (for choice) has >= 1 item and >= 1 draw')
 TRUSTED = [
     'Coq 8.16.1 kernel incl. vm_compute (no native_compute)',
-    'all 27 theorems closed under the global context (no axioms); C08_choice / C08_choice_accepted are closed over eight / thirteen order and monotonicity '
+    'all 29 theorems closed under the global context (no axioms); C08_choice / C08_choice_accepted are closed over eight / thirteen order and monotonicity '
     'premises on the carrier (proved for the rationals: C08_choice_Q, C08_choice_accepted_Q); that finite IEEE doubles without overflow meet '
     'them (monotone rounding, x/x = 1, 0/x = 0) is a trusted reading, exercised bit-exactly by the correspondence',
     'the generator is an abstract deterministic machine (Section variables rng/seed_rng/draw): MT19937 itself is not modelled',
@@ -442,6 +442,99 @@ def run_trial_file(ctx):
             m = list(v[1]) if isinstance(v, tuple) and v[0] == 'Ok' else ['Err', v]
             if m != rows:
                 ctx.disagree('extend_trial_data_file.rows', case, rows, m)
+
+
+# ===================================================================== extension: random initials of the floating parameters
+
+def _qlit(x):
+    from fractions import Fraction
+    f = Fraction(x)
+    n = f'({f.numerator})' if f.numerator < 0 else str(f.numerator)
+    return f'({n} # {f.denominator})'
+
+
+def initials_cases(ctx):
+    rng = ctx.rng
+    cases = [{'kind': 'initials', 'bounds': [[0.0, 2.0], [1.0, 9.0], [-3.0, -3.0]], 'fixed_at': [1], 'u': [0.5, 0.25, 1.0]},
+             {'kind': 'initials', 'bounds': [[-1.0, 1.0]], 'fixed_at': [], 'u': [0.0]},
+             {'kind': 'initials', 'bounds': [[0.0, 4.0], [2.0, 3.0]], 'fixed_at': [0, 2], 'u': [0.999755859375, 0.0]},
+             # malformed: the service hands back a wrong number of uniforms
+             {'kind': 'initials', 'bounds': [[0.0, 4.0], [2.0, 3.0]], 'fixed_at': [], 'u': [0.5, 0.5, 0.5], 'malformed': True},
+             {'kind': 'initials', 'bounds': [[0.0, 4.0], [2.0, 3.0], [1.0, 2.0]], 'fixed_at': [], 'u': [0.5, 0.25], 'malformed': True}]
+    for _ in range(ctx.budget(25, 400)):
+        n = rng.randint(1, 6)
+        bounds = []
+        for _ in range(n):
+            lo = rng.randint(-64, 64) / 8.0
+            hi = lo + rng.choice([0, 1, 3, 16, 100]) / 4.0
+            bounds.append([lo, hi])
+        u = [rng.choice([0.0, rng.randint(0, 4096) / 4096.0, 4095 / 4096.0]) for _ in range(n)]
+        c = {'kind': 'initials', 'bounds': bounds, 'fixed_at': sorted(rng.sample(range(n + 1), rng.randint(0, 2))), 'u': u}
+        if n >= 2 and rng.random() < 0.15:
+            c['u'] = u + [0.5] if rng.random() < 0.5 else u[:-1] if n >= 3 else u + [0.5]
+            c['malformed'] = True
+        cases.append(c)
+    return cases
+
+
+def run_initials(ctx, only=None):
+    """ParameterSet.generate_random_floating_param_initials (real ParameterSet / Parameter objects, a service returning
+    prescribed dyadic uniforms, so that the float arithmetic is exact) vs. `param_initials` over the rationals"""
+    from fractions import Fraction
+    from skyllh.core.parameters import Parameter, ParameterSet
+    exprs, impls = [], []
+    for c in (only or initials_cases(ctx)):
+        ctx.case(c)
+        ctx.count('initials:malformed' if c.get('malformed') else f"initials:n:{len(c['bounds'])}")
+        params, k = [], 0
+        for i in range(len(c['bounds']) + len(c['fixed_at']) + 1):
+            if i in c['fixed_at'] or k >= len(c['bounds']):
+                params.append(Parameter(f'fix{i}', 1.5))
+            else:
+                lo, hi = c['bounds'][k]
+                params.append(Parameter(f'p{k}', lo, lo, hi))
+                k += 1
+        ps = ParameterSet(params)
+
+        class R:
+            def uniform(self, low=0.0, high=1.0, size=None):
+                R.asked = size
+                return np.array(c['u'], dtype=np.float64)
+
+        class S:
+            random = R()
+        try:
+            ri = ps.generate_random_floating_param_initials(S())
+            impl = ['Ok'] + [float(x) for x in ri]
+        except Exception as ex:
+            impl = ['Err', exc_name(ex)]
+        if not c.get('malformed'):
+            want = [Fraction(lo) + Fraction(x) * (Fraction(hi) - Fraction(lo)) for (lo, hi), x in zip(c['bounds'], c['u'])]
+            if impl[0] != 'Ok' or R.asked != len(c['bounds']) or len(impl) - 1 != len(c['bounds']):
+                ctx.violation('ParameterSet.generate_random_floating_param_initials', 'wrong-shape',
+                              f'asked for {getattr(R, "asked", None)} uniforms / returned {impl[:3]} for {len(c["bounds"])} floating parameters',
+                              case=c, impl=impl, predicate='one initial per floating parameter')
+            elif any(not (lo <= v <= hi) for (lo, hi), v in zip(c['bounds'], impl[1:])) or \
+                    [Fraction(v) for v in impl[1:]] != want:
+                ctx.violation('ParameterSet.generate_random_floating_param_initials', 'initial-out-of-bounds-or-wrong',
+                              'an initial is outside its bounds or differs from lower + u * (upper - lower)', case=c, impl=impl,
+                              model=[float(x) for x in want], predicate='lower <= initial <= upper, initial = lower + u*(upper-lower)')
+        bl = '[' + '; '.join(f'({_qlit(lo)}, {_qlit(hi)})' for lo, hi in c['bounds']) + ']'
+        ul = '[' + '; '.join(_qlit(x) for x in c['u']) + ']'
+        exprs.append(f'match param_initials QNum {bl}%Q {ul}%Q with Ok r => Ok (map (fun q => (Qnum (Qred q), Zpos (Qden (Qred q)))) r) '
+                     f'| Err e => Err e end')
+        impls.append((c, impl))
+    if ctx.model_ok and exprs:
+        vals = common.coq_eval('c08ini', IMPORTS + 'From Coq Require Import QArith.\n', exprs)
+        for (c, impl), v in zip(impls, vals):
+            ctx.corr_cases += 1
+            if isinstance(v, tuple) and v[0] == 'Ok':
+                m = ['Ok'] + [Fraction(a, b) for a, b in v[1]]
+                imp = ['Ok'] + [Fraction(x) for x in impl[1:]] if impl[0] == 'Ok' else impl
+            else:
+                m, imp = ['Err', v[1] if isinstance(v, tuple) else v], impl
+            if m != imp:
+                ctx.disagree('ParameterSet.generate_random_floating_param_initials', c, impl, [str(x) for x in m])
 
 
 # ===================================================================== caller-owned keyword dictionaries
@@ -1964,6 +2057,7 @@ def run(ctx):
     run_seed(ctx)
     run_trial_file(ctx)
     run_kwargs_reuse(ctx)
+    run_initials(ctx)
     run_workers(ctx)
     run_completion_order(ctx)
     run_reseed(ctx)
@@ -2016,6 +2110,8 @@ def replay(ctx, rp):
         run_trial_file(ctx)
     elif kind == 'kwargs-reuse':
         run_kwargs_reuse(ctx)
+    elif kind == 'initials':
+        run_initials(ctx, only=[c])
     elif kind == 'static':
         static_scan(ctx)
     else:
